@@ -212,32 +212,33 @@ theorem readClassAttrs_skip {avail : Nat} :
 
 /-! ## fields -/
 
-theorem readField_proj {avail : Nat} {cfg : Cfg} {m : Mask} (hc : cfg.cls = some m)
+theorem readField_proj {avail : Nat} {cfg : Cfg} {m : Mask} (hc : cfg.cls = some m) (hf : cfg.fieldsI = true)
     {i : Nat} {f : Field} {p p' : Nat} {evs : List Ev}
     (hx : f.attrs.all (leafExact fieldAct) = true) (h : readField avail full i f p = .ok (p', evs)) :
     readField avail cfg i f p = .ok (p', evs.filterMap (proj cfg)) := by
   simp only [readField, full] at h
   obtain ⟨q, hq, h⟩ := bind_ok.mp h
+  obtain ⟨_, hn, h⟩ := bind_ok.mp h
   obtain ⟨q2, hq2, h⟩ := bind_ok.mp h
   obtain ⟨r', hr', h⟩ := bind_ok.mp h
   obtain ⟨p2, evs2, d2, sy2⟩ := r'
   simp [pure_ok] at h
   obtain ⟨rfl, rfl⟩ := h
-  simp only [readField, hq, bind, Except.bind]
+  simp only [readField, hq, hn, bind, Except.bind]
   cases hcf : cfg.field i with
   | none =>
     have hs := readLeafs_skip _ _ _ hx hr'
     have hd := readLeafs_evs_drop (m := allMask) (proj cfg)
       (by intro unk k pay; simp [hc, hcf]) _ _ _ hr'
     simp at hs hd
-    simp [skipAttrs, hq2, hs, bind, Except.bind, pure_ok, List.filterMap_append, hc, hcf, keepIf]
+    simp [skipAttrs, hq2, hs, bind, Except.bind, pure_ok, List.filterMap_append, hc, hf, hcf, keepIf]
     exact hd
   | some fm =>
     have h1 := readLeafs_proj (m := fm) (proj cfg)
-      (by intro unk k pay; simp [hc, hcf]) _ _ _ _ _ _ hx hr'
-    simp [hq2, h1, bind, Except.bind, pure_ok, List.filterMap_append, hc, hcf, keepIf]
+      (by intro unk k pay; simp [hc, hf, hcf]) _ _ _ _ _ _ hx hr'
+    simp [hq2, h1, bind, Except.bind, pure_ok, List.filterMap_append, hc, hf, hcf, keepIf]
 
-theorem readFields_proj {avail : Nat} {cfg : Cfg} {m : Mask} (hc : cfg.cls = some m) :
+theorem readFields_proj {avail : Nat} {cfg : Cfg} {m : Mask} (hc : cfg.cls = some m) (hf : cfg.fieldsI = true) :
     ∀ (fs : List Field) (i p p' : Nat) (evs : List Ev),
       fs.all (fun f => f.attrs.all (leafExact fieldAct)) = true →
       readFields avail full i fs p = .ok (p', evs) →
@@ -255,7 +256,7 @@ theorem readFields_proj {avail : Nat} {cfg : Cfg} {m : Mask} (hc : cfg.cls = som
     obtain ⟨p2, e2⟩ := r2
     simp [pure_ok] at h
     obtain ⟨rfl, rfl⟩ := h
-    have a1 := readField_proj hc hx.1 h1
+    have a1 := readField_proj hc hf hx.1 h1
     have a2 := ih _ _ _ _ hx.2 h2
     simp [a1, a2, bind, Except.bind, pure_ok, List.filterMap_append]
 
